@@ -231,3 +231,7 @@ def re_group1(pattern, text):
 
 def ghost(name, *args):
     raise NotImplementedError("ghost functions have no run-time reading")
+
+
+def join_lf_opt(xs):
+    return "\n".join(xs)
